@@ -11,6 +11,7 @@ import (
 	"github.com/vulcand/oxy/v2/ratelimit"
 	"github.com/vulcand/oxy/v2/utils"
 	"github.com/vulcand/oxy/v2/zzverif/simkit"
+	"github.com/vulcand/oxy/v2/zzverif/simrt"
 	"pgregory.net/rapid"
 )
 
@@ -55,6 +56,12 @@ var srcExtractor = utils.ExtractorFunc(func(req *http.Request) (string, int64, e
 // path runs on every access without the configuration ever changing)
 var viaExtractor bool
 
+// guardRun is the current run (set by freeze): panics of the limiter become violations
+var guardRun *simkit.Run
+
+// perSourceRates, when set while a limiter is built, gives individual sources their own rate set through the extractor
+var perSourceRates map[string][]rateSpec
+
 func drawRateSource(rt *rapid.T) { viaExtractor = rapid.Bool().Draw(rt, "rates-via-extractor") }
 
 func newTLim(rt *rapid.T, rates []rateSpec, capacity int) *tlim {
@@ -78,7 +85,21 @@ func newTLim(rt *rapid.T, rates []rateSpec, capacity int) *tlim {
 	if capacity > 0 {
 		opts = append(opts, ratelimit.Capacity(capacity))
 	}
-	if viaExtractor {
+	if perSourceRates != nil {
+		ps := perSourceRates
+		def := rates
+		opts = append(opts, ratelimit.ExtractRates(ratelimit.RateExtractorFunc(func(req *http.Request) (*ratelimit.RateSet, error) {
+			rr, ok := ps[req.Header.Get("Src")]
+			if !ok {
+				rr = def
+			}
+			rs := ratelimit.NewRateSet()
+			for _, r := range rr {
+				_ = rs.Add(r.period, r.average, r.burst)
+			}
+			return rs, nil
+		})))
+	} else if viaExtractor {
 		// the default set is deliberately different (and tiny): if the extractor's answer were ignored, the twins and bounds would notice
 		rs = ratelimit.NewRateSet()
 		_ = rs.Add(time.Hour, 1, 1)
@@ -96,7 +117,11 @@ func (l *tlim) do(src string, amount int64) tlResult {
 	req := newRequest(nil, src)
 	req.Header.Set("Amount", strconv.FormatInt(amount, 10))
 	rec := simkit.NewRecorder()
-	l.lim.ServeHTTP(rec, req)
+	if guardRun != nil && (simrt.Active() == nil || simrt.Active().Current() == nil) {
+		guardRun.Guard("request through the rate limiter", func() { l.lim.ServeHTTP(rec, req) })
+	} else {
+		l.lim.ServeHTTP(rec, req) // inside a task: the scheduler records the panic
+	}
 	res := tlResult{status: rec.Status, handled: rec.H.Get("X-Handled") != ""}
 	if v := rec.Snapshot.Get("X-Retry-In"); v != "" {
 		res.retryHdr = v
